@@ -175,6 +175,13 @@ func c11Build(c c11Case) (root, rel string, err error) {
 	}
 	hexKey := func(k []byte) []byte { return []byte(hex.EncodeToString(k)) }
 	rk := filepath.Join(root, filepath.FromSlash(c.redkeyDir()))
+	if c.Prefix != "" && strings.Contains(c.Prefix, c.DirName) {
+		// decoy: a (wrong) key where replacing text instead of the path element would look for it
+		decoy := filepath.Join(root, filepath.FromSlash(strings.Replace(c.relDir(), c.DirName, "REDKEY", 1)))
+		if err = writeKey(decoy, hexKey(c11KeyEmb)); err != nil {
+			return
+		}
+	}
 	switch c.Key {
 	case "adjacent":
 		err = writeKey(dir, hexKey(c11KeyA))
@@ -501,6 +508,27 @@ func c11LongNames(yield func(c11Case) bool) {
 	}
 }
 
+// c11PrefixNames: the PS3ISO directory lies below a directory whose own name contains that spelling
+// (PS3ISO_old/PS3ISO/g.iso): the parallel REDKEY directory is the sibling of the PS3ISO *element*, whatever the
+// names above it look like. A decoy key waits where a textual replacement would look (REDKEY_old/PS3ISO/g.dkey).
+func c11PrefixNames(yield func(c11Case) bool) {
+	seed := uint64(970000)
+	for _, dir := range []string{"PS3ISO", "ps3iso"} {
+		for _, prefix := range []string{dir + "_old", "my" + dir, dir + dir} {
+			for _, key := range []string{"none", "adjacent", "redkey", "both"} {
+				for _, wm := range []string{"none", "enc"} {
+					for _, depth := range []int{0, 1} {
+						seed++
+						if !yield(c11Case{DirName: dir, Prefix: prefix, Ext: ".iso", Depth: depth, Key: key, Watermark: wm, Length: 8 * 2048, Seed: seed*31 + 7, Net: seed%3 == 0}) {
+							return
+						}
+					}
+				}
+			}
+		}
+	}
+}
+
 // c11KeyDirs: a directory named like the key file, beside the image or below REDKEY.
 func c11KeyDirs(yield func(c11Case) bool) {
 	seed := uint64(950000)
@@ -523,7 +551,7 @@ func c11KeyDirs(yield func(c11Case) bool) {
 func TestC11Product(t *testing.T) {
 	st := hx.NewStats("C11", "product")
 	if true {
-		st.MarkExhaustive("full product: 5 directory names x 4 extensions x 3 depths x 7 key layouts (incl. a regular file called REDKEY) x 3 watermarks x 6 file lengths x 2 prefixes (library or network route per case), plus 48 cases with a 255-byte image name and 144 with a directory, a self-referencing link or a socket named like the key file")
+		st.MarkExhaustive("full product: 5 directory names x 4 extensions x 3 depths x 7 key layouts (incl. a regular file called REDKEY) x 3 watermarks x 6 file lengths x 2 prefixes (library or network route per case), plus 48 cases with a 255-byte image name, 96 with the PS3ISO spelling inside the name of a directory above it (and a decoy key) and 144 with a directory, a self-referencing link or a socket named like the key file")
 	} else {
 		st.MarkExhaustive("all combinations of the precedence-relevant factors (key layout x watermark x {PS3ISO/.iso, other} x {0x1070, larger}); the remaining product is sampled 1/4")
 	}
@@ -532,6 +560,9 @@ func TestC11Product(t *testing.T) {
 		c11Product(func(c c11Case) bool { ok = yield(c); return ok })
 		if ok {
 			c11LongNames(func(c c11Case) bool { ok = yield(c); return ok })
+		}
+		if ok {
+			c11PrefixNames(func(c c11Case) bool { ok = yield(c); return ok })
 		}
 		if ok {
 			c11KeyDirs(yield)
